@@ -312,8 +312,12 @@ class BaseEvent(BaseModel, Generic[T_EventResultType]):
                             try:
                                 if bus.event_queue.qsize() > 0:
                                     event = bus.event_queue.get_nowait()
-                                    await bus.process_event(event)
-                                    bus.event_queue.task_done()
+                                    try:
+                                        await bus.process_event(event)
+                                    finally:
+                                        # also when this await is cancelled mid-way (handler timeout, wait_for around the await):
+                                        # an entry taken from the queue without task_done() blocks wait_until_idle() for ever
+                                        bus.event_queue.task_done()
                                     processed_any = True
                                     # Check if the event we're waiting for is now complete
                                     if self.event_completed_signal.is_set():
